@@ -697,6 +697,7 @@ def _ambient_probe(modname, name, f, a0, kw, live, ref, b_live):
 
 _CODE_OPT = {}
 _LAST_ARGS = {}
+_THREAD_PREV = {}
 
 
 def _fresh_optimized(modname, name):
@@ -731,15 +732,25 @@ def _thread_probe(modname, name, f, a0, kw, live, ref, b_live):
     scratch storage another thread can overwrite"""
     if live[0] != 'ok':
         return False
-    K, M = 4, (3 if name in SLOW else 10)
+    K, M = 4, (4 if name in SLOW else 10)
     bad = [None] * K
     old = sys.getswitchinterval()
+    # the threads work on DIFFERENT arguments (shared scratch storage only shows when the values differ): the present ones and those of
+    # the previous probed call of this function, each with its own expected result computed beforehand, alone
+    variants = [(a0, kw, b_live)]
+    prev = _THREAD_PREV.get((modname, name))
+    if prev is not None:
+        rp = _call(f, copy.deepcopy(prev[0]), copy.deepcopy(prev[1]))
+        if rp[0] == 'ok' and _outcome_bits(rp) is not None and _outcome_bits(rp) != b_live:
+            variants.append((prev[0], prev[1], _outcome_bits(rp)))
+    _THREAD_PREV[(modname, name)] = (copy.deepcopy(a0), copy.deepcopy(kw))
 
     def work(i):
         _depth[0] = 1
+        av, kv, bv = variants[i % len(variants)]
         for _ in range(M):
-            r = _call(f, copy.deepcopy(a0), copy.deepcopy(kw))
-            if _outcome_bits(r) != b_live:
+            r = _call(f, copy.deepcopy(av), copy.deepcopy(kv))
+            if _outcome_bits(r) != bv:
                 bad[i] = r
                 return
     ts = [_threading.Thread(target=work, args=(i,)) for i in range(K)]
